@@ -693,8 +693,16 @@ func TestC16_Gsx(t *testing.T) {
 				c.tracked, c.store, c.current, c.reqCancel, c.pending = false, false, nil, false, nil
 				m.afterCleanup++
 			case "use-store":
-				m.logf("UseStore(%s)", chidStr(c.chid))
+				m.logf("UseStore(%s) already registered=%v", chidStr(c.chid), c.store)
 				if c.store {
+					// the manager re-applies a channel's transport options on every restart:
+					// a second registration is refused by graphsync and must change nothing
+					_ = r.tr.UseStore(c.chid, cidLinkSystem())
+					for _, call := range r.gs.Since(g0) {
+						if call.Kind == "unregister-store" {
+							m.fail("C16/store-lifetime", "re-applying UseStore unregistered the channel's store")
+						}
+					}
 					continue
 				}
 				if err := r.tr.UseStore(c.chid, cidLinkSystem()); err != nil {
